@@ -32,6 +32,7 @@ RULE = ("model tie: the extracted Coq models of HasherV2, HasherHybrid (padding 
         "the extracted creator composed with Model/Bencode.v encode predicts the BYTES of the written file -- compared "
         "byte for byte.  "
         "A case is non-trivial when it is distinct and hits at least one boundary class.")
+RULE += V.RULE_SCALE
 TRUSTED_BASE = V.TRUSTED_BASE + [
     "hand-written models Model/Creators.v (the _traverse / assemble methods of TorrentFileV2, TorrentFileHybrid and "
     "TorrentAssembler, MetaFile.__init__, sort_meta), Model/Bencode.v (pyben's encoder) and Spec/PathSem.v (name and path "
@@ -57,6 +58,7 @@ def run(ctx, model_ok):
     if ctx.tier == "thorough":
         ctx.exhaustive = True       # the patched small scopes are enumerated completely
     V.require_classes(ctx, V.REQUIRED_V2 + V.REQUIRED_CREATORS)
+    V.require_classes(ctx, V.REQUIRED_SCALE, minimum=1)      # the payloads at scale (piece lengths 2 .. 32 MiB) were reached
     # the creators unit correspondence counts its own boundary classes (after the end-to-end requirement above)
     quick = ctx.tier == "quick"
     cc.unit_for(ctx, model_ok, CREATOR_KINDS, n=UNIT_N[0] if quick else UNIT_N[1], budget=90000 if quick else 300000,
